@@ -39,6 +39,13 @@ def tlsh(data,buckets=128,window=5,chklen=1,force=False):
     sw=lambda x:((x&15)<<4)|(x>>4)
     return bytes([sw(x) for x in ck]+[sw(L),(r1<<4)|r2])+bytes(code[::-1])
 
+def tlsh_lvalue(n):
+    """the L byte of a TLSH digest for an input of n bytes"""
+    if n <= 656: L = math.floor(math.log(n) / math.log(1.5))
+    elif n <= 3199: L = math.floor(math.log(n) / math.log(1.3) - 8.72777)
+    else: L = math.floor(math.log(n) / math.log(1.1) - 62.5472)
+    return L & 0xff
+
 def tlsh_buckets(data, window=5):
     """the 256 bucket counts (used by generators that aim at the bucket-population gate)"""
     bk = [0] * 256
